@@ -285,7 +285,21 @@ fn harness_main(args: Vec<String>) -> i32 {
     }
     let _ = std::fs::write(&hpath, hb);
     let out = work.join(format!("result-{}-{}.json", ctx.build, shard));
-    let txt = serde_json::to_string(&rep.to_json(&ctx)).unwrap();
+    let txt = if cfg!(miri) {
+        // serde_json's integer formatting goes through itoa-0.4.7, which Miri rejects
+        // (mem::uninitialized in a pinned dependency): write the few numbers by hand
+        format!(
+            "{{\"check\":\"{}\",\"shard\":0,\"nshards\":1,\"seed\":{},\"build\":\"miri\",\"evaluations\":{},\"conclusive\":{},\"nontrivial_count\":0,\"inconclusive\":{{}},\"hist\":{{}},\"counters\":{{}},\"samples\":[],\"violations\":[{}],\"inconsistencies\":[],\"notes\":[],\"exhaustive\":null,\"digests\":[],\"wall_s\":{}}}",
+            ctx.check,
+            ctx.seed,
+            rep.evaluations,
+            rep.conclusive,
+            rep.violations.iter().map(|v| format!("{{\"signature\":{:?},\"summary\":{:?},\"replay\":{{}}}}", v.signature, v.summary.replace('\n', " "))).collect::<Vec<_>>().join(","),
+            ctx.start.elapsed().as_secs()
+        )
+    } else {
+        serde_json::to_string(&rep.to_json(&ctx)).unwrap()
+    };
     if let Err(e) = std::fs::write(&out, txt) {
         eprintln!("cannot write {}: {}", out.display(), e);
         return 3;
